@@ -52,13 +52,14 @@ def marker_set(name, dim, shape, dx, dtype, seed=0):
     return P.astype(dtype)
 
 
-def case_adjoint(dim, kernel, dtype, dx, ncomp, mset, seed):
+def case_adjoint(dim, kernel, dtype, dx, ncomp, mset, seed, shift="default"):
     real_t = np.dtype(dtype).type
     shape = lagcomm.SHAPES[dim]
     eps = float(np.finfo(real_t).eps)
-    comm = lagcomm.Comm(dim, kernel, real_t, dx, n_components=ncomp)
+    comm = lagcomm.Comm(dim, kernel, real_t, dx, n_components=ncomp, shift=lagcomm.shift_value(shift, dx))
     n = comm.n
-    P = marker_set(mset, dim, shape, dx, real_t, seed)
+    # the marker sets are defined relative to the cells: they move with the grid origin
+    P = (marker_set(mset, dim, shape, dx, np.float64, seed) + (comm.shift - dx / 2)).astype(real_t)
     comm.locate(P.copy())
     fails = []
     ncell = int(np.prod(shape))
@@ -116,14 +117,14 @@ def case_adjoint(dim, kernel, dtype, dx, ncomp, mset, seed):
         col = Smat[c, :, c, :] * vol  # (cell, m)
         sums = col.sum(0)
         if np.abs(sums - 1).max() > 64 * eps:
-            fails.append(Fail(f"{tag}:force-conservation", "grid integral of a spread unit force is not one", component=c, dim=dim, set=mset, sums=sums.tolist()))
+            fails.append(Fail(f"{tag}:force-conservation", "grid integral of a spread unit force is not one", component=c, dim=dim, set=mset, grid_origin=shift, sums=sums.tolist()))
         if kernel == "peskin":
-            grids = np.meshgrid(*[(np.arange(s) + 0.5) * dx for s in shape], indexing="ij")
+            grids = np.meshgrid(*[comm.shift + np.arange(s) * dx for s in shape], indexing="ij")
             for k in range(dim):
                 coord = grids[dim - 1 - k].ravel()
                 mom = (col * coord[:, None]).sum(0)
                 if np.abs(mom - P[k].astype(np.float64)).max() > 64 * eps * (1 + np.abs(P[k]).max()):
-                    fails.append(Fail(f"{tag}:torque-conservation", "first moment of a spread unit force differs from the marker position (Peskin)", axis=k, component=c, dim=dim, set=mset))
+                    fails.append(Fail(f"{tag}:torque-conservation", "first moment of a spread unit force differs from the marker position (Peskin)", axis=k, component=c, dim=dim, set=mset, grid_origin=shift))
     nz = int(np.count_nonzero(Smat))
     if nz == 0 and not fails:
         from harness.interp import HarnessError
@@ -246,6 +247,13 @@ def run(r) -> None:
                     for ncomp in (1, dim):
                         for ms in SETS:
                             cases.append(dict(dim=dim, kernel=kernel, dtype=dt, dx=dx, ncomp=ncomp, mset=ms, seed=r.seed))
+    # grids whose first cell centre is not at dx / 2 (node-centred, far-offset origin)
+    for dim in (2, 3):
+        for kernel in ("cosine", "peskin"):
+            for dt in (("float64",) if quick else ("float64", "float32")):
+                for sh in ("zero", "far"):
+                    for ms in SETS:
+                        cases.append(dict(dim=dim, kernel=kernel, dtype=dt, dx=lagcomm.DXS[1], ncomp=dim, mset=ms, seed=r.seed, shift=sh))
     r.run_cases("adjoint-basis", "adjoint", cases)
     acc = [dict(dim=dim, kernel=k, dtype=dt, dx=lagcomm.DXS[0], ncomp=nc, depth=3 if quick else 6)
            for dim in (2, 3) for k in ("cosine", "peskin") for dt in ("float64", "float32") for nc in (1, dim)]
@@ -253,6 +261,6 @@ def run(r) -> None:
     seqs = [dict(dim=dim, kernel=k, dtype=dt, ncomp=nc, dx_order=list(o)) for dim in (2, 3) for k in ("cosine", "peskin") for dt in ("float64", "float32") for nc in (1, dim)
             for o in itertools.permutations(lagcomm.DXS, 2)]
     r.run_cases("construction-sequences", "sequence", seqs)
-    r.bounds = {"marker_sets": SETS, "batch": lagcomm.N_BATCH, "dx": lagcomm.DXS[:1] if quick else lagcomm.DXS, "components": "1 and dim", "history_depth": 3 if quick else 6}
+    r.bounds = {"marker_sets": SETS, "batch": lagcomm.N_BATCH, "dx": lagcomm.DXS[:1] if quick else lagcomm.DXS, "components": "1 and dim", "grid_origins": lagcomm.SHIFTS, "history_depth": 3 if quick else 6}
     r.extra["rule"] = "adjoint: one state per unit impulse (cell x component) and per unit force (marker x component); accumulation: BFS states = bytes of the target field"
     r.assumptions = ["numba closures (fastmath) driven directly; entries compared to 16 eps"]
